@@ -49,6 +49,34 @@ CHECKS = {
   "Histories of register / duplicate register / serve / register-while-serving / shutdown / register-again / serve-again on one Service object with hostile identity strings and descriptions; after every operation done while serving a real client compares GetInfo, GetInterfaceDescription (every listed name and 7 near-misses each), Resolver.GetInfo and Resolver.Resolve with a small model; RegisterInterface must be refused exactly when duplicate or serving.",
   "Trusted: the model (ordered name list + description map + serving flag). Non-empty names, valid UTF-8.",
   "runtime monitor: model-based history checking through the client helpers", "DESIGN.md §4 C13"),
+ "C14": ("e-life", "exploration",
+  "(A) A controlled net.Listener is installed through the white-box accessor and DoListen runs on it: the accept loop's steps are exactly its calls on the listener, so every valid history over {connect, call, close, abort, handler fails, cancel context, second Bind, second Listen} up to a length bound (quick 4, thorough 5) is ended by Shutdown at each of 4 placements (parked in Accept, inside SetDeadline = before accept, inside Accept just before a connection is returned, racing from another goroutine), plus random longer histories. Decided on event order only: accepted connections are released exactly when they end and counted out; listener closed by the time Shutdown returned; no service for a connection offered afterwards; no return while connections are open; nil return once they ended (refuted logically if the loop is parked on a listener nobody closed); re-bind + serve + shutdown of the same object. (B) real unix/TCP sockets with Listen and Bind+DoListen: client loops and a serve/Shutdown cycle recorded with logical call/return stamps and checked with porcupine against 'ok only while bound'.",
+  "Trusted: controlled listener/conn (300 lines), porcupine v1.3.0, bounded progress (10 s per loop step, 20 s for the serving call to return). The drain grace (8 ms) and late-connection window (3 ms) are one-sided.",
+  "runtime monitor: deterministic schedule control at the net.Listener boundary (bounded-exhaustive histories) + event-order oracle; porcupine linearizability check of recorded real-socket histories", "DESIGN.md §4 C14"),
+ "C15": ("e-life", "exploration",
+  "(A) The controlled listener's deadline is virtual: SetDeadline arms it and the harness makes the parked Accept return a timeout error, so every valid history over {connect, call, close, abort, expiry} up to length 5 (thorough 7) places expiries exactly while a connection is verifiably open (must re-arm, re-enter Accept, keep serving) or after the active count reached 0 (must return ServiceTimeoutError with the listener closed); timeout 0 must never arm nor stop. (B) real clock, T=150 ms, one-sided margins: second client served after 2.5 T with one connection open; ServiceTimeoutError after the last close; then dial fails, socket file gone, same address served again at once.",
+  "Trusted: controlled listener; real-clock part asserts only what holds for a correct service under any load (bounds 200 T).",
+  "runtime monitor: virtual-time fault injection (accept-timeout expiry) at the net.Listener boundary over bounded-exhaustive histories + event-order oracle; real-clock one-sided checks", "DESIGN.md §4 C15"),
+ "C16": ("e-race", "exploration",
+  "The driver is rebuilt with -race; every pair (thorough: and triple) of the service API operations the statement lists runs concurrently, with seeded start offsets and repetitions, against a Listen or DoListen that is known to be serving; connections used by one goroutine at a time run cancelled and timed-out I/O with the caller reusing its buffers at once; handlers are cancelled while blocked in connection I/O; the concurrent-connection workload of C01 (thorough: C14 epochs, C17 matrix) is re-run in the race build. Any race report with a github.com/varlink/go frame is a violation (de-duplicated by the pair of library frames).",
+  "Trusted: the Go race detector (reports only races whose both accesses executed). Reports without a library frame would be harness bugs (none observed).",
+  "Go race detector (-race build, GORACE log files) over an operation-tuple stress workload", "DESIGN.md §4 C16"),
+ "C17": ("e-ctx", "exploration",
+  "The matrix {raw Read, ReadBytes, Write, client receive, Call, Send} x {in-memory pipe, unix, TCP, real Connection, bridge subprocess} x {cancel, deadline} x {before the call, blocked idle, blocked after a partial frame, after completion} with seeded cancel offsets. Per cell: the operation returns within the bound with a context/timeout error (goroutine dump must show it parked in the library otherwise); no goroutine remains in the library's connection; a follow-up read with a live context must block until the peer sends and then return exactly the new frame (optionally preceded by a suffix of the in-flight partial frame); a follow-up write arrives intact; a complete Call on the same Connection succeeds. Service side: idle / mid-frame / used connections and handlers blocked in Call.Conn I/O all end when the serving context is cancelled.",
+  "Trusted: goroutine dump parsing ('internal/ctxio.(*Conn)' frames); bounded progress 10 s. An expired deadline left armed on the net.Conn is not observable through the API (every operation re-arms first) and is not asserted.",
+  "runtime monitor: cancellation/deadline fault matrix + goroutine-leak monitor + stream-continuity oracle on reuse", "DESIGN.md §4 C17"),
+ "C18": ("e-ctx", "exploration",
+  "Stream-integrity monitor (exactly-once, in order): a known byte stream with NULs anywhere is sent under segmentation schedules over pipe / unix / TCP and consumed through seeded interleavings of ReadBytes and Read(n) of many sizes; after every read the concatenation must be a prefix of what was sent and equal at end of stream. End to end: upgrade call + payload in one segment to a real Service whose handler reads Call.Conn; reply frame + payload in one segment to a real Connection that called Upgrade.",
+  "Trusted: the peer-side writer. net.Pipe refuses deadlines once the other end is closed, so on the in-memory pipe no verdict is drawn on bytes still buffered at that moment.",
+  "runtime monitor: stream-integrity (prefix) oracle over interleaved read primitives and segmentation schedules", "DESIGN.md §4 C18"),
+ "C19": ("e-addr", "exploration",
+  "Address grammar (22 forms x 6 ';' tails) x {Bind, Listen} x {fresh object, object with a valid unserved Bind, object after serve+shutdown} x {no file, stale socket, regular file at the path}, each call under recover(). Strings the statement calls invalid must be refused whatever was bound before; forms listed valid must succeed; whenever binding succeeds a client given the SAME string must complete a GetInfo round trip with this service's unique product string; abstract names create no file and are reachable by raw dial; filesystem sockets exist after bind and are gone after Shutdown; the same object binds and serves a fresh valid address after every outcome.",
+  "Trusted: the 15-line classifier written from the statement. unix:@ and port 0 judged for totality only; no host names (no resolver in the sandbox).",
+  "runtime monitor: reference-classifier oracle + client/service consistency round trips + filesystem observations, panic monitor", "DESIGN.md §4 C19"),
+ "C20": ("e-activ", "exploration",
+  "The full product of the quantifier (4 x 8 x 8 x 3 = 768 configurations; thorough x 3 kinds of non-selected descriptors) is enumerated completely: a helper process inherits three distinguishable candidates as fds 3,4,5, sets LISTEN_PID per case and calls Service.Listen(fallback). A 20-line model from the statement says which single endpoint must answer GetInfo with the helper's unique identity; no other candidate may answer; the helper must not panic.",
+  "Trusted: the selection model (A.6); kernel fd inheritance via exec ExtraFiles. The negative probes are one-sided (15 ms).",
+  "runtime monitor: exhaustive configuration enumeration through a helper subprocess + reference-model oracle on which endpoint answers", "DESIGN.md §4 C20"),
 }
 
 NOT_YET = {}
@@ -97,6 +125,11 @@ def main():
             {"name": "e-idl", "path": "harness/internal/eng/idl_*.go", "serves_properties": ["C05", "C06", "C09"], "kind_free_text": "generators + reference-tree / print-equality / totality monitors around idl.New"},
             {"name": "e-conn", "path": "harness/internal/eng/conn_*.go, model.go, netcommon.go", "serves_properties": ["C01", "C04", "C10"], "kind_free_text": "raw-socket scripted connections against a real Service with a scripted dispatcher; sequential connection model; abort enumeration"},
             {"name": "e-pair", "path": "harness/internal/eng/pair_*.go", "serves_properties": ["C02", "C03", "C12", "C13"], "kind_free_text": "real Connection <-> real Service through a recording, re-segmenting proxy on 4 transports"},
+            {"name": "e-life", "path": "harness/internal/eng/life_*.go", "serves_properties": ["C14", "C15"], "kind_free_text": "controlled net.Listener/net.Conn histories (virtual deadline), real-socket epochs, porcupine"},
+            {"name": "e-race", "path": "harness/internal/eng/race_c16.go, harness/internal/racelog", "serves_properties": ["C16"], "kind_free_text": "-race build of the driver, operation tuples, race-log parser"},
+            {"name": "e-ctx", "path": "harness/internal/eng/ctx_*.go", "serves_properties": ["C17", "C18"], "kind_free_text": "cancellation/deadline matrix, stream-integrity monitor, goroutine-leak monitor"},
+            {"name": "e-addr", "path": "harness/internal/eng/addr_c19.go", "serves_properties": ["C19"], "kind_free_text": "address grammar against Bind/Listen/NewConnection"},
+            {"name": "e-activ", "path": "harness/internal/eng/activ_c20.go", "serves_properties": ["C20"], "kind_free_text": "helper process under every activation environment"},
             {"name": "e-client", "path": "harness/internal/eng/client_c11.go", "serves_properties": ["C11"], "kind_free_text": "real Connection against a scripted raw server with death offsets"},
         ]),
         "checks": checks,
